@@ -255,6 +255,12 @@ ExS(x, st) ==
     [] x.k = "asg"  -> LET v == Eval(x.e, st.heap, st.loc)  i == IndexOf(st.loc, x.n, Len(st.loc)) IN
                        IF IsUndef(v) \/ i = 0 THEN Comp("undef", Empty, st, "expr")
                        ELSE Comp("normal", Void, [st EXCEPT !.loc[i] = <<x.n, v>>], "expr")
+    [] x.k = "asgsub" -> \* element write on a local list (value semantics: the list held by the local is replaced)
+                       LET v == Eval(x.e, st.heap, st.loc)  ix == Eval(x.i, st.heap, st.loc)  i == IndexOf(st.loc, x.n, Len(st.loc)) IN
+                       IF IsUndef(v) \/ IsUndef(ix) \/ i = 0 THEN Comp("undef", Empty, st, "expr")
+                       ELSE LET cur == st.loc[i][2] IN
+                            IF cur.t # "list" \/ ix.i < 0 \/ ix.i >= Len(cur.l) THEN Comp("undef", Empty, st, "expr")
+                            ELSE Comp("normal", Void, [st EXCEPT !.loc[i] = <<x.n, VList([cur.l EXCEPT ![ix.i + 1] = v.s])>>], "expr")
     [] x.k = "wprop" -> LET o == Eval(x.o, st.heap, st.loc)  v == Eval(x.e, st.heap, st.loc) IN
                        IF IsUndef(o) \/ IsUndef(v) \/ o.s = "null" THEN Comp("undef", Empty, st, "expr")
                        ELSE Comp("normal", Void,
